@@ -113,6 +113,8 @@ def one(rng, j):
         cls, a = "to_flat_nearby", None
     elif k < 0.44:
         cls, a = "mirror", None       # amount == +value: NOT a close-out request
+    elif k < 0.49:
+        cls, a = "near_closeout", None   # within 1e-9 .. 1e-5 (relative) of minus the value: still not a close-out
     else:
         cls, a = "random", rng.uniform(-30, 30) * unit
     bad = None
@@ -139,6 +141,9 @@ def evaluate(c, cnt):
         a = -v0
     elif c["cls"] == "mirror":
         a = v0
+    elif c["cls"] == "near_closeout":
+        r_ = random.Random(c["j"] + 7)
+        a = -v0 * (1 + r_.choice([1, -1]) * 10 ** r_.uniform(-9, -5.1))
     elif c["cls"] == "to_flat_nearby":
         a = -v0 + random.Random(c["j"]).choice([1, -1]) * random.Random(c["j"] + 1).uniform(0, 0.6) * p * m
     c["amount"] = a
@@ -192,7 +197,13 @@ def evaluate(c, cnt):
         if sec.position != 0:
             return common.VIOL, "c05_closeout_not_closed", w
         return common.HELD, None, None
-    k3 = pos_before != 0 and q == -pos_before
+    # K3: the request, rounded by bt's own rule, lands exactly on -position (so the budget loop is skipped)
+    raw = a / (p * m)
+    if integer:
+        rq = math.floor(raw) if (pos_before > 0 or (pos_before == 0 and a > 0)) else math.ceil(raw)
+    else:
+        rq = raw
+    k3 = pos_before != 0 and q == -pos_before and rq == -pos_before
     if ct > a + tol:
         mech = "c05_overspend" if a > 0 else "c05_underraise"
         if k3:
